@@ -36,6 +36,8 @@ def assignments_to(f: Func, name: str) -> List[ast.AST]:
             out.append(n.value)
         elif isinstance(n, ast.AugAssign) and isinstance(n.target, ast.Name) and n.target.id == name:
             out.append(n)
+        elif isinstance(n, ast.NamedExpr) and isinstance(n.target, ast.Name) and n.target.id == name:
+            out.append(n.value)
     return out
 
 
